@@ -242,6 +242,11 @@ pub fn run_desc(out: &mut Out, seed: u64, n: u64) {
                 .raw("instrs", &cpu::instrs_json(&ins)),
         );
     }
+    {
+        let d: GlobalDescriptorTable = Default::default();
+        let e: Vec<u64> = d.entries().iter().map(|x| x.raw()).collect();
+        out.emit(Ev::new("gdt_default").words("entries", &e).n("limit", lim(&d)));
+    }
     let p = DescriptorTablePointer { limit: 0xabcd, base: VirtAddr::new(0x1122_3344_5566) };
     let pb = &p as *const _ as u64;
     let bytes: Vec<i64> = (0..10).map(|i| unsafe { *((pb + i) as *const u8) } as i64).collect();
